@@ -115,10 +115,14 @@ def gen_cfg(R, tier, all_atom=None):
                     fragr[key(dsc)] = row
     term = [key(d_) for d_ in kinds if R.chance(0.2)]
     masses = {nm: R.choice([1, 5, 10.5, 42]) for nm in texts}
-    cfg = dict(input=s, pr=pr, fragr=fragr, term=term, masses=None if all_atom else masses, all_atom=all_atom,
+    explicit_aa_masses = all_atom and R.chance(0.25)
+    cfg = dict(input=s, pr=pr, fragr=fragr, term=term, masses=masses if (not all_atom or explicit_aa_masses) else None, all_atom=all_atom,
                seed=R.randint(0, 10 ** 6), target=R.choice([0, 1, 10, 50, 120, -5]) if not all_atom else R.choice([0, 30, 150, 400]),
                start=R.choice([None, None, 'F0']), expected_mass=expected_mass)
     feats = {'all_atom' if all_atom else 'coarse', 'pr:' + style, 'nfrag:%d' % nfr}
+    if explicit_aa_masses:
+        feats.add('all_atom_with_given_masses')
+        cfg['expected_mass'] = {}
     if fragr:
         feats.add('conditional_table')
     if term:
@@ -322,15 +326,14 @@ def analyse(cfg, smp, g, want):
                 expect(partner in open_.get(partner_atom, []), 'sampler:descriptor-not-open',
                        lambda: 'growth step %d uses %r on new atom %r which carries %r' % (k, partner, partner_atom, open_.get(partner_atom)))
             if 'weights' in want:
-                selectable = [s for s in open_now if (not pr) or pr.get(s, 0) > 0]
-                if pr and selectable:
+                # (where every candidate has reactivity 0 the sampler raises - a dead end - it never picks one)
+                if pr:
                     expect(cfg_explicit_zero(pr, site) is False, 'sampler:zero-reactivity-site',
                            lambda: 'growth step %d chose site %r whose reactivity is 0' % (k, site))
                 if fragr.get(site):
                     row = fragr[site]
-                    if any(v > 0 for v in row.values()):
-                        expect(not (partner in row and row[partner] == 0), 'sampler:zero-conditional-partner',
-                               lambda: 'growth step %d chose partner %r with conditional reactivity 0 given %r' % (k, partner, site))
+                    expect(not (partner in row and row[partner] == 0), 'sampler:zero-conditional-partner',
+                           lambda: 'growth step %d chose partner %r with conditional reactivity 0 given %r' % (k, partner, site))
             if site in open_.get(site_atom, []):
                 open_[site_atom].remove(site)
             if partner in open_.get(partner_atom, []):
